@@ -10,7 +10,7 @@ def run(ctx):
                        '(path enumeration over terms; atoms = branch predicates) and compared, for all 4200 abstract inputs '
                        '(7 modes x 3 signs x 100 digit pairs x tail flag), with the documented mode definitions by evaluating the path '
                        'predicates -- the function is never run.  needs_trailing_zeros is cross-checked against that table. '
-                       'PROV: round(n) uses the configured default mode. R-SCALE: with_scale / set_scale / take_and_scale / to_owned_with_scale return exactly the requested scale on every path and are exact when extending; R-SIGN: with_scale_round gives round_pair the receiver\'s own sign; R-NOCALL: truncation uses truncating division. MODE-DISPATCH: no function other than the table-checked ones branches on a RoundingMode value. NOT decided: carry propagation and the position arithmetic of with_scale_round.')
+                       'PROV: round(n) uses the configured default mode. R-SCALE: with_scale / set_scale / take_and_scale / to_owned_with_scale return exactly the requested scale on every path and are exact when extending; R-SIGN: with_scale_round gives round_pair the receiver\'s own sign; R-NOCALL: truncation uses truncating division. MODE-DISPATCH: no function other than the table-checked ones branches on a RoundingMode value. POSITION: place-value typing of with_scale_round\'s digit indices - with k = scale - new_scale the pair handed to round_pair is (D[k], D[k-1]), the tail flag all_zero(D[0..k-1]), the result rebuilt from D[k..], the three regimes selected by comparing len(D) - scale with -new_scale (linear identities, all digit counts and scales). NOT decided: carry propagation through runs of nines.')
     F = ctx.facts('default', 'rel')
     cells, table = TR.round_pair_table(rep, F)
     rep.floor('round_pair abstract cells', cells, 4200)
@@ -30,6 +30,9 @@ def run(ctx):
     ns = S.sign_sinks(rep, F, F._prov, wsr)
     rep.floor('round_pair calls in with_scale_round', ns, 3)
     no_flooring(rep, F)
+    from rules import position
+    npos = position.check(rep, F)
+    rep.floor('position obligations of with_scale_round', npos, 5)
     nm = TR.mode_dispatch(rep, F)
     rep.floor('functions dispatching on the rounding mode', nm, 3)
     rep.extra['exhaustive_table'] = True
